@@ -2,6 +2,7 @@ package main
 
 import (
 	"fmt"
+	"sync/atomic"
 	"go/types"
 	"sort"
 	"strings"
@@ -103,7 +104,7 @@ type Sorts struct {
 func NewSorts(db *SpecDB) *Sorts {
 	s := &Sorts{done: map[string]string{}, structs: map[string]*structInfo{}, db: db}
 	s.decls = append(s.decls,
-		"(declare-datatypes ((Slice 1)) ((par (T) ((mk-slice (s.arr (Array Int T)) (s.off Int) (s.len Int) (s.cap Int))))))",
+		"(declare-datatypes ((Slice 1)) ((par (T) ((mk-slice (s.arr (Array Int T)) (s.len Int) (s.cap Int))))))",
 		"(declare-datatypes ((Iface 0)) (((mk-iface (i.tid Int) (i.val Int)))))",
 	)
 	return s
@@ -177,7 +178,7 @@ func (s *Sorts) StructOf(t types.Type) *structInfo {
 	st := t.Underlying().(*types.Struct)
 	si := &structInfo{key: key, sort: q("S:" + key), ctor: q("mk:" + key)}
 	s.structs[key] = si
-	if isOpaqueStruct(t) {
+	if isOpaqueStruct(t) || containsByValue(st, t, map[string]bool{}, 0) {
 		si.opaque = true
 		s.decls = append(s.decls, fmt.Sprintf("(declare-sort %s 0)", si.sort))
 		return si
@@ -217,7 +218,7 @@ func (s *Sorts) ZeroOf(t types.Type) string {
 		return "0"
 	case *types.Slice:
 		es := s.SortOf(u.Elem())
-		return fmt.Sprintf("(mk-slice ((as const (Array Int %s)) %s) 0 0 0)", es, s.ZeroOf(u.Elem()))
+		return fmt.Sprintf("(mk-slice ((as const (Array Int %s)) %s) 0 0)", es, s.ZeroOf(u.Elem()))
 	case *types.Array:
 		return fmt.Sprintf("((as const (Array Int %s)) %s)", s.SortOf(u.Elem()), s.ZeroOf(u.Elem()))
 	case *types.Interface:
@@ -265,6 +266,12 @@ func isUnsigned(b *types.Basic) bool { return b.Info()&types.IsUnsigned != 0 }
 
 // RangeOf returns a Bool term constraining x to the values of type t ("true" if none).
 func (s *Sorts) RangeOf(t types.Type, x string) string {
+	return s.rangeOf(t, x, 0)
+}
+
+var rangeCounter int64
+
+func (s *Sorts) rangeOf(t types.Type, x string, depth int) string {
 	t = types.Unalias(t)
 	if isSyncType(t) {
 		return "true"
@@ -277,9 +284,32 @@ func (s *Sorts) RangeOf(t types.Type, x string) string {
 			}
 		}
 	case *types.Slice:
-		return fmt.Sprintf("(and (<= 0 (s.off %s)) (<= 0 (s.len %s)) (<= (s.len %s) (s.cap %s)) (<= (s.cap %s) 1152921504606846976))", x, x, x, x, x)
+		base := fmt.Sprintf("(and (<= 0 (s.len %s)) (<= (s.len %s) (s.cap %s)) (<= (s.cap %s) 1152921504606846976))", x, x, x, x)
+		if depth < 0 {
+			k := fmt.Sprintf("rk!%d", atomic.AddInt64(&rangeCounter, 1))
+			el := fmt.Sprintf("(select (s.arr %s) %s)", x, k)
+			if er := s.rangeOf(u.Elem(), el, depth+1); er != "true" {
+				return fmt.Sprintf("(and %s (forall ((%s Int)) (! %s :pattern (%s))))", base, k, er, el)
+			}
+		}
+		return base
 	case *types.Pointer, *types.Map, *types.Signature, *types.Chan:
 		return fmt.Sprintf("(>= %s 0)", x)
+	case *types.Struct:
+		si := s.StructOf(t)
+		if si.opaque || depth > 2 {
+			return "true"
+		}
+		var parts []string
+		for i, sel := range si.fields {
+			if r := s.rangeOf(si.ftypes[i], fmt.Sprintf("(%s %s)", sel, x), depth+1); r != "true" {
+				parts = append(parts, r)
+			}
+		}
+		if len(parts) == 0 {
+			return "true"
+		}
+		return "(and " + strings.Join(parts, " ") + ")"
 	}
 	return "true"
 }
@@ -322,4 +352,45 @@ func sortedKeys[M ~map[string]V, V any](m M) []string {
 	}
 	sort.Strings(ks)
 	return ks
+}
+
+// containsByValue reports whether struct type target occurs (by value, through slices/arrays/maps/structs) inside st:
+// such recursive value types are modelled as opaque sorts.
+func containsByValue(st *types.Struct, target types.Type, seen map[string]bool, depth int) bool {
+	if depth > 12 {
+		return true
+	}
+	for i := 0; i < st.NumFields(); i++ {
+		if typeMentions(st.Field(i).Type(), target, seen, depth) {
+			return true
+		}
+	}
+	return false
+}
+
+func typeMentions(t, target types.Type, seen map[string]bool, depth int) bool {
+	t = types.Unalias(t)
+	if isSyncType(t) {
+		return false
+	}
+	switch u := t.Underlying().(type) {
+	case *types.Slice:
+		return typeMentions(u.Elem(), target, seen, depth+1)
+	case *types.Array:
+		return typeMentions(u.Elem(), target, seen, depth+1)
+	case *types.Struct:
+		if types.Identical(t, target) {
+			return true
+		}
+		k := typeKey(t)
+		if seen[k] {
+			return false
+		}
+		seen[k] = true
+		if isOpaqueStruct(t) {
+			return false
+		}
+		return containsByValue(u, target, seen, depth+1)
+	}
+	return false
 }
